@@ -310,8 +310,9 @@ def _one_call(scn, k, shared_pool, verdicts, c):
                                                "that position", "position": j, "path": scn["path"]})
                     break
         if scn["path"] == "ncpus" and factory_calls != [scn["W"]]:
-            v("values", {"what": "Pool factory not called once with the requested worker count",
-                         "calls": [repr(x) for x in factory_calls], "requested": scn["W"]})
+            # informational only: how many workers PyDRex asks for is not part of the property
+            c["pool_factory_called_with_other_worker_count"] = \
+                c.get("pool_factory_called_with_other_worker_count", 0) + 1
     hh = hashlib.sha256()
     hh.update(np.asarray(out if out is not None and exc is None else []).tobytes()
               if scalar_exc is None else b"x")
